@@ -90,7 +90,18 @@ func (li *layoutInterp) unpackItem(st *lpath, src avSlice, off *Lin, item AV, ca
 			for i := w - 1; i >= 0; i-- {
 				bv = append(bv, parts[i]...)
 			}
-			li.storeTo(st, it.inner, avInt{bv: bv}, call)
+			val := avInt{bv: bv}
+			if w == 1 {
+				// one input octet is also a number in 0..255 (as a direct load data[k] is)
+				if k, isK := off.IsConst(); isK {
+					sym := fmt.Sprintf("%s[%d]", src.name, k)
+					if _, has := st.env[sym]; !has {
+						st.env[sym] = iv{0, 255}
+					}
+					val.lin = linSym(sym)
+				}
+			}
+			li.storeTo(st, it.inner, val, call)
 			return []decCont{{st, off.Add(linConst(w))}}
 		}
 		// Unpackable
